@@ -63,16 +63,16 @@ def adversarial_sender(rng, tier, rate_limit=True, gens=False, stops=False):
             if r < 0.35:
                 ops.append({'op': 'process', 'i': 0, **({'rx': False} if rng.random() < 0.15 else {})})
             elif r < 0.6:
-                ops.append(fc(0, rng.choice([0, 0, 1, 2, 3, 255]), rng.choice([0, 0, 0, 1, 0xF1, 0x7F, 5]),
+                ops.append(fc(0, rng.choice([0, 0, 1, 2, 3, 255]), rng.choice([0, 0, 0, 1, 0xF1, 0x7F, 5, 0xF9, 0xF5]),
                               dt=rng.choice([0, 0, 0, 1000, tfc - 1000, tfc + 1000])))
                 if rng.random() < 0.7:
                     ops.append({'op': 'process', 'i': 0})
             elif r < 0.7:
-                ops.append(fc(1))
+                ops.append(fc(1, rng.choice([0, 0, 3]), rng.choice(EDGE_ST)))        # (block size / separation time of a Wait are don't-cares)
                 if rng.random() < 0.7:
                     ops.append({'op': 'process', 'i': 0})
             elif r < 0.76:
-                ops.append(fc(2))
+                ops.append(fc(2, rng.choice([0, 0, 3]), rng.choice(EDGE_ST)))        # ... and of an Overflow
                 ops.append({'op': 'process', 'i': 0})
             elif r < 0.9:
                 ops.append({'op': 'tick', 'dt': rng.choice([0, 1000, 300001, 1000001, 5000001, 127000001, max(0, tfc - 1000), tfc + 1000,
@@ -93,6 +93,9 @@ def adversarial_sender(rng, tier, rate_limit=True, gens=False, stops=False):
         ops.append({'op': 'tick', 'dt': max(tfc, 200000000) + 1000, 'keep': True})
         ops.append({'op': 'process', 'i': 0, 'keep': True})
     return {'ops': ops}
+
+
+EDGE_ST = [0, 0, 0, 0x7F, 0xF1, 0xF9, 5]         # every valid separation-time code at the edges of its range
 
 
 def judge_sender(sc, lines_in, impl_out, check_outcomes=True):
